@@ -527,6 +527,57 @@ fn map_by_value<const N: usize>(rep: &mut Report) {
         }
         rep.traces += 1;
     }
+    // non-local exits out of the mapper at element k (round 15: a consumer kept in ManuallyDrop leaked the unmapped tail):
+    // `return` out of the enclosing function, `?`, and a labelled break - all of them paths that run to completion
+    fn exit_return<const N: usize>(arr: [Tracked; N], k: usize) -> Option<[Tracked; N]> {
+        let mut idx = 0usize;
+        Some(konst::array::map_!(arr, |t: Tracked| {
+            if idx == k { return None; }
+            idx += 1;
+            Tracked::new(t.payload * 2)
+        }))
+    }
+    fn exit_question<const N: usize>(arr: [Tracked; N], k: usize) -> Result<[Tracked; N], usize> {
+        let mut idx = 0usize;
+        Ok(konst::array::map_!(arr, |t: Tracked| {
+            let t = if idx == k { Err(idx) } else { Ok(t) }?;
+            idx += 1;
+            Tracked::new(t.payload * 2)
+        }))
+    }
+    fn exit_break<const N: usize>(arr: [Tracked; N], k: usize) -> Option<[Tracked; N]> {
+        let mut idx = 0usize;
+        'outer: loop {
+            let out = konst::array::map_!(arr, |t: Tracked| {
+                if idx == k { break 'outer None; }
+                idx += 1;
+                Tracked::new(t.payload * 2)
+            });
+            break Some(out);
+        }
+    }
+    for (kind, name) in [(0u8, "return"), (1, "?"), (2, "labelled break")] {
+        for k in 0..=N {
+            ledger_reset();
+            rep.transitions += 1;
+            rep.states += 1;
+            let arr: [Tracked; N] = std::array::from_fn(|i| Tracked::new(100 + i as u64));
+            let exp: Vec<u64> = arr.iter().map(|t| t.payload * 2).collect();
+            let r = catch(move || match kind { 0 => exit_return(arr, k), 1 => exit_question(arr, k).ok(), _ => exit_break(arr, k) });
+            let pstr = format!("mapper leaves through `{name}` at element {k}");
+            match r {
+                Ok(out) => {
+                    let got: Option<Vec<u64>> = out.as_ref().map(|o| o.iter().map(|t| t.payload).collect());
+                    drop(out);
+                    let want = if k == N { Some(exp.clone()) } else { None };
+                    if got != want { fail(rep, "C15", "array::map_!", N, &pstr, "result", format!("{want:?}"), format!("{got:?}")); continue; }
+                    if let Err(e) = ledger_verdict(true) { fail(rep, "C15", "array::map_!", N, &pstr, "drop/move ledger", "every input and every already mapped element dropped exactly once (the path runs to completion)".into(), e); }
+                }
+                Err(p) => fail(rep, "C15", "array::map_!", N, &pstr, "result", "no panic".into(), format!("panic: {p}")),
+            }
+            rep.traces += 1;
+        }
+    }
     // from_fn_! by value
     ledger_reset();
     rep.transitions += 1;
@@ -624,7 +675,7 @@ pub fn run(which: &str, tier: Tier, rep: &mut Report) -> (String, String) {
     rep.notes.push(format!("shared C11/C15 ledger engine: {} kept violations carried the other property's tag", before - rep.violations.len()));
     rep.violations_total = rep.violations.len() as u64;
     (
-        "state = an operation history executed from scratch (stateless exploration by re-execution) on ArrayConsumer<Tracked,N> (ops next, next_back, drop, assert_is_empty, clone -> second live object, start from empty()) / ArrayBuilder<Tracked,N> (push, build, drop, clone, clone_from between the two live objects); after every step as_slice/len/is_full are compared with a deque/vec model and every live element is modified through as_mut_slice; at the end of every history the thread-local ledger must show each element handed out or dropped exactly once (at most once on panic paths), in original order with the expected payload; map_!/from_fn_! with a closure panicking at each element k; distinct_nontrivial counted conservatively as half of the complete histories".into(),
+        "state = an operation history executed from scratch (stateless exploration by re-execution) on ArrayConsumer<Tracked,N> (ops next, next_back, drop, assert_is_empty, clone -> second live object, start from empty()) / ArrayBuilder<Tracked,N> (push, build, drop, clone, clone_from between the two live objects); after every step as_slice/len/is_full are compared with a deque/vec model and every live element is modified through as_mut_slice; at the end of every history the thread-local ledger must show each element handed out or dropped exactly once (at most once on panic paths), in original order with the expected payload; map_!/from_fn_! with a closure panicking at each element k, map_! with a mapper leaving through return / ? / labelled break at each element k (complete paths: exactly once); distinct_nontrivial counted conservatively as half of the complete histories".into(),
         format!("N in 0..={maxn}, history depth min(N+{extra}, {}), at most 2 live objects; every enabled sequence; {zst_bounds}", tier.pick(8, 9, 4)),
     )
 }
